@@ -203,11 +203,57 @@ func c08AllEntries(d *gedcom.NodeDiff) []*gedcom.NodeDiff {
 	return out
 }
 
+// c08WideFacts: see the "wide-facts" workload.
+func c08WideFacts(r *fw.Rand) *gen.Spec {
+	var kids []*gen.Spec
+	for k, n := 0, r.Range(10, 30); k < n; k++ {
+		tag := c07Plain[r.Intn(len(c07Plain))]
+		if tag == "CONC" || tag == "CONT" {
+			tag = "NOTE"
+		}
+		kids = append(kids, &gen.Spec{Tag: tag, Value: fmt.Sprintf("v%d", k)})
+	}
+	year := 1700 + r.Intn(100)
+	types := []string{"Graduation", "Ceremony", "Travel", "Immigration", "Land Lease"}
+	for k, n := 0, r.Range(2, 6); k < n; k++ {
+		f := &gen.Spec{Tag: "RESI"}
+		if r.Bool() {
+			f.Tag, f.Value = "EVEN", []string{"", "Moved", "Census"}[r.Intn(3)]
+		}
+		if r.Chance(3, 4) {
+			year += r.Range(2, 9)
+			v := fmt.Sprint(year)
+			if r.Bool() {
+				v = fmt.Sprintf("%d %s %d", r.Range(1, 28), []string{"Jan", "May", "Dec"}[r.Intn(3)], year)
+			}
+			f.Kids = append(f.Kids, &gen.Spec{Tag: "DATE", Value: v})
+		}
+		f.Kids = append(f.Kids, &gen.Spec{Tag: "PLAC", Value: fmt.Sprintf("Town %d", k)})
+		for t, nt := 0, r.Intn(4); t < nt; t++ {
+			f.Kids = append(f.Kids, &gen.Spec{Tag: "TYPE", Value: types[(k+t*2)%len(types)]})
+		}
+		if r.Chance(1, 3) {
+			f.Kids = append(f.Kids, &gen.Spec{Tag: "NOTE", Value: fmt.Sprintf("note %d", k)})
+		}
+		// mostly behind the plain children, now and then anywhere
+		pos := len(kids)
+		if r.Chance(1, 3) {
+			pos = r.Intn(len(kids) + 1)
+		}
+		kids = append(kids[:pos], append([]*gen.Spec{f}, kids[pos:]...)...)
+	}
+	if r.Bool() {
+		return &gen.Spec{Tag: "INDI", Pointer: "I1", Kids: append([]*gen.Spec{{Tag: "NAME", Value: "A /B/"}}, kids...)}
+	}
+	return &gen.Spec{Tag: "_ROOT", Value: "r", Kids: kids}
+}
+
 func c08Run(c *fw.Ctx, i int) {
 	r := c.R
-	kind := []string{"independent", "permuted-copy", "unique-leaves", "fg-individual"}[i%4]
+	kind := []string{"independent", "permuted-copy", "unique-leaves", "fg-individual", "wide-facts"}[i%5]
 	var L, R gedcom.Node
 	var uniqueLeft, uniqueRight []string
+	wideEdit := 0
 	switch kind {
 	case "independent":
 		a := c07Tree(r, r.Range(3, 20))
@@ -286,6 +332,36 @@ func c08Run(c *fw.Ctx, i int) {
 		}
 		L, _ = c07Node(ls)
 		R, _ = c07Node(rs)
+	case "wide-facts":
+		// a parent with many pairwise different children (where code switches
+		// to indexes), among them residences and events that share their line
+		// and differ in what makes them equal: their dates, or, without dates,
+		// everything else. The dates are exact and in different years.
+		a := c08WideFacts(r)
+		L, _ = c07Node(a)
+		b := cloneSpec(a)
+		wideEdit = r.Intn(3)
+		if wideEdit == 1 {
+			// one fact moves to another year and place: its old and its new
+			// form are in one input only
+			var facts []*gen.Spec
+			for _, k := range b.Kids {
+				if (k.Tag == "RESI" || k.Tag == "EVEN") && len(k.Kids) > 0 && k.Kids[0].Tag == "DATE" {
+					facts = append(facts, k)
+				}
+			}
+			if len(facts) == 0 {
+				wideEdit = 0
+			} else {
+				f := facts[r.Intn(len(facts))]
+				f.Kids[0].Value = fmt.Sprint(2100 + r.Intn(50))
+				f.Kids = append(f.Kids, &gen.Spec{Tag: "PLAC", Value: "Moved Town"})
+			}
+		}
+		R, _ = c07Node(b)
+		if R != nil && wideEdit != 2 {
+			c07Permute(R, r)
+		}
 	}
 	if L == nil || R == nil {
 		c.HarnessError("C08: generated pair does not decode")
@@ -346,7 +422,13 @@ func c08Run(c *fw.Ctx, i int) {
 			c.Violation("isdeepequal-true-for-different-trees:IsDeepEqual", "inputs differ by uniquely tagged leaves but IsDeepEqual() is true", payload)
 		}
 	}
-	if kind == "permuted-copy" {
+	if kind == "wide-facts" && wideEdit == 1 {
+		c.Count("one-sided-by-construction", 1)
+		if d.IsDeepEqual() {
+			c.Violation("isdeepequal-true-for-different-trees:IsDeepEqual", "one residence or event has another year and place in the right input but IsDeepEqual() is true\n"+d.String(), payload)
+		}
+	}
+	if kind == "permuted-copy" || (kind == "wide-facts" && wideEdit != 1) {
 		// A tree and its re-ordered copy ARE deep-equal inputs (the property's
 		// own example); the library's DeepEqual is not asked, because a change
 		// that makes a node unequal to its own copy would silence the demand.
